@@ -126,9 +126,12 @@ func (o *obj) refresh() {
 
 func (o *obj) stale() {
 	o.acc, o.lnMean = nil, nil
+	// nonpos: a non-positive value that counts (has non-zero weight). A
+	// non-positive value with weight zero is "repeated zero times": it must be
+	// ignored by the weighted GeoMean like by everything else.
 	o.nonpos = false
-	for _, x := range o.s.Xs {
-		if x <= 0 {
+	for i, x := range o.s.Xs {
+		if x <= 0 && (o.s.Weights == nil || o.s.Weights[i] != 0) {
 			o.nonpos = true
 		}
 	}
@@ -298,6 +301,17 @@ func (c *ctx) create() {
 		for i := range ws {
 			ws[i] = float64(g.Pick(2, 3, 2, 1, 1))
 			tot += ws[i]
+		}
+		if g.Chance(1, 3) {
+			// every non-positive value gets weight zero: the sample then equals an
+			// all-positive unweighted sample and its GeoMean is defined
+			tot = 0
+			for i := range ws {
+				if xs[i] <= 0 {
+					ws[i] = 0
+				}
+				tot += ws[i]
+			}
 		}
 		if tot == 0 && n > 0 {
 			ws[g.Intn(n)] = 1
@@ -672,6 +686,14 @@ func (c *ctx) query(k int) {
 			}
 		}) || n == 0 {
 			return
+		}
+		if weighted {
+			for i, x := range s.Xs {
+				if x <= 0 && s.Weights[i] == 0 {
+					c.probe("geomean_weighted_with_zero_weight_nonpositive_value")
+					break
+				}
+			}
 		}
 		if o.nonpos {
 			c.probe("geomean_nonpositive")
